@@ -167,14 +167,22 @@ CHECKS = {
              "rules that raise); Model/SpecValidate.v states the 25 supported rules after the specification (type-scoped "
              "recursion, independent of the walk). Proved for all schemas/documents: an acyclic fragment graph (sharing, "
              "repeated spreads, any definition order; fuel shown sufficient) is never reported as a cycle; the six uniqueness "
-             "rules report nothing on distinct names (iff); an accepted document is handed to the executor unchanged. The check "
+             "rules report nothing on distinct names (iff); an accepted document is handed to the executor unchanged; the walk "
+             "is a PURE FUNCTION of the type scope (from every state of the shared context the errors appended below a "
+             "selection are sel_errs scope path s, or the state ends crashed); acceptance is DECOMPOSED into the walk phase "
+             "and the 11 document-level rules each being quiet; exact against the specification predicates: lone anonymous "
+             "operation, fragments-must-be-used and spread-target-defined (the spread list the rules read is the document's), "
+             "values of correct type at every depth (nested induction, self-referential input types), argument names, "
+             "required arguments, directive locations, field-exists / leaf-selection, type conditions, and the whole field "
+             "node. The check "
              "generates structured valid documents (fragment DAGs with sharing, several named operations reaching shared "
              "fragments by different routes, variables only inside fragments, directives in all 7 executable locations, "
              "meta-fields and introspection selections, identical repeated fields, one-key subscriptions) on generated schemas; "
              "inside Coq every document must satisfy all 25 specification predicates (else the generator is at fault) and the "
              "implementation model's error set must equal the engine's; the engine must not answer with any rule-tagged or "
              "generic validation error. PARTIAL: spec_valid -> accepted for all rules together is decided per document, not "
-             "proved.",
+             "proved (what remains: lifting the per-site equivalences over all sites, single-root, possible spreads, the three "
+             "variable rules).",
         note="Trusted: Coq kernel, generators, parser stand-in (which texts parse, locations), scalar translator for literal "
              "leaves. Field-selection-merging (5.3.2) is not implemented by the engine; generated documents satisfy it by "
              "construction.",
@@ -195,7 +203,10 @@ CHECKS = {
              "graph with distinct names, fuel shown sufficient), a cyclic graph puts the walk in a refusing state and no later "
              "rule undoes a refusal; and, re-checked against the CURRENT source on every run (harness/wiring.py -> "
              "Gen/Wiring_gen.v -> Proofs/Wiring.v), every supported rule is registered in RULE_SET and invoked from exactly the "
-             "call sites the model transcribes, only the cycle rule aborting. Two "
+             "call sites the model transcribes, only the cycle rule aborting. Also proved complete against the "
+             "specification: lone-anonymous, fragments-must-be-used, spread-target-defined, values of correct type at every "
+             "depth (a rejected literal makes the rule raise or report and the walk refuse), unknown argument, missing "
+             "required argument, misplaced directive; and acceptance is the conjunction of all rules being quiet. Two "
              "recorded findings (known_findings.json) are attributed by Coq-evaluated region predicates. PARTIAL: completeness "
              "of the other rules at every site is decided per document, not proved.",
         note="Trusted: as C06. Documents with non-executable definitions are outside the document model (engine side only).",
